@@ -19,6 +19,15 @@ ENGINES = [
 ]
 NOT_APPLICABLE = {}
 CHECKS = {
+    "C02": dict(
+        engine="hist (on zsym) + protogen/protonorm", level="other", design_ref="DESIGN.md section 4 / C02",
+        technique="symbolic execution (zsym/z3) of deserialize-then-serialize over feature-switched protos built directly with protobuf: feature combination and IR version symbolic; oracle: field-by-field equality of normal forms implementing only the documented normalisations",
+        text=("Protos are built directly with protobuf/onnx.helper with one switch per construct named by the property (alias domain, value-info order and unreferenced/initializer value-info, trailing unnamed outputs, explicit defaults, metadata on every carrier, type and "
+              "dimension denotations, optional(sequence(tensor))/sequence/sparse types, quantization annotations for every value role and in nested bodies, device configurations, functions with overloads, attribute parameters with/without default and reference attributes, "
+              "GRAPH and GRAPHS attributes capturing outer values two scopes up, every tensor storage field incl. external references, 25 element types, every attribute kind with doc strings). Per case the second feature, 'all other features on' and the IR version (3..13) "
+              "are symbolic. norm(to_proto(from_proto(p))) == norm(p) field by field, and the tensor / attribute / value-info / function (de)serializer pairs are checked on every sub-message; the same for the serialized family models."),
+        note="Trusted: z3; proxies cross-checked per path; the normaliser (only the six documented normalisations); scalars reach protobuf as concrete path values (C boundary) - the fakepb stand-in planned in the design was not built. Sparse tensors, map types and wire-level behaviour are outside the claim.",
+    ),
     "C03": dict(
         engine="hist (on zsym)", level="other", design_ref="DESIGN.md section 4 / C03",
         technique="symbolic execution (zsym/z3) of edit-then-serialize histories over a model family; oracle: structural isomorphism with a value bijection after the round trip, serialization idempotent and side-effect free; per-path native re-execution",
